@@ -1358,7 +1358,8 @@ class TTNS(TTNBase):
             indices1 = tuple(indices1)
             indices2 = tuple(indices2)
             new_node.tensor[indices1] = node1.tensor
-            new_node.tensor[indices2] = node2.tensor
+            # block-diagonal in the virtual indices; a single-node tree has none and the two blocks coincide
+            new_node.tensor[indices2] += node2.tensor
             if node1 is self.root:
                 np.testing.assert_allclose(node1.qn, node2.qn)
                 new_node.qn = node1.qn.copy()
